@@ -83,7 +83,10 @@ class XPriv:
 
     @staticmethod
     def generate():
-        W = _W.get()
+        try:
+            W = _W.get()
+        except Exception:  # called while the module is being loaded (no path yet): one process-wide key
+            return XPriv("eC-import-time")
         W.eph += 1
         return XPriv("eC%d" % W.eph)
 
